@@ -176,6 +176,18 @@ var simpleKinds = []simpleKind{
 // sequence has n glyphs "A or X" (glyph formats: exactly A), with optional
 // backtrack / lookahead of one glyph (chained formats).
 func ctxSub(format string, n int, back, look bool, acts []Action) Sub {
+	return ctxSubW(format, n, back, look, false, acts)
+}
+
+// ctxSubW: with wide set, the classes / coverages of the class and coverage
+// formats also contain the mark M (a glyph the flags may ignore).
+func ctxSubW(format string, n int, back, look, wide bool, acts []Action) Sub {
+	ax := []int{gA, gX}
+	axb := []int{gA, gB}
+	if wide {
+		ax = []int{gA, gX, gM}
+		axb = []int{gA, gB, gM}
+	}
 	rest := make([]int, n-1)
 	switch format {
 	case "c1":
@@ -187,12 +199,15 @@ func ctxSub(format string, n int, back, look bool, acts []Action) Sub {
 		for i := range rest {
 			rest[i] = 1
 		}
-		return Sub{Kind: "c2", Cov: []int{gA, gX}, CD: [][2]int{{gA, 1}, {gX, 1}, {gM, 2}},
-			CRules: [][]CRule{{}, {{rest, acts}}}}
+		cd := [][2]int{{gA, 1}, {gX, 1}, {gM, 2}}
+		if wide {
+			cd = [][2]int{{gA, 1}, {gX, 1}, {gM, 1}}
+		}
+		return Sub{Kind: "c2", Cov: ax, CD: cd, CRules: [][]CRule{{}, {{rest, acts}}}}
 	case "c3":
 		covs := make([][]int, n)
 		for i := range covs {
-			covs[i] = []int{gA, gX}
+			covs[i] = ax
 		}
 		return Sub{Kind: "c3", Covs: covs, Acts: acts}
 	case "k1":
@@ -218,22 +233,29 @@ func ctxSub(format string, n int, back, look bool, acts []Action) Sub {
 		if look {
 			r.Look = []int{3}
 		}
-		return Sub{Kind: "k2", Cov: []int{gA, gX},
-			CD:  [][2]int{{gA, 2}, {gX, 2}, {gB, 1}},
-			CD2: [][2]int{{gA, 1}, {gX, 1}},
-			CD3: [][2]int{{gA, 3}, {gB, 3}, {gM, 1}},
-			KRules: [][]KRule{{}, {r}}}
+		cd1 := [][2]int{{gA, 2}, {gX, 2}, {gB, 1}}
+		cd2 := [][2]int{{gA, 1}, {gX, 1}}
+		cd3 := [][2]int{{gA, 3}, {gB, 3}, {gM, 1}}
+		if wide {
+			cd1 = [][2]int{{gA, 2}, {gX, 2}, {gB, 1}, {gM, 2}}
+			cd2 = [][2]int{{gA, 1}, {gX, 1}, {gM, 1}}
+			cd3 = [][2]int{{gA, 3}, {gB, 3}, {gM, 3}}
+		}
+		return Sub{Kind: "k2", Cov: ax, CD: cd1, CD2: cd2, CD3: cd3, KRules: [][]KRule{{}, {r}}}
 	case "k3":
 		covs := make([][]int, n)
 		for i := range covs {
-			covs[i] = []int{gA, gX}
+			covs[i] = ax
 		}
 		s := Sub{Kind: "k3", Covs: [][]int{}, Covs2: covs, Covs3: [][]int{}, Acts: acts}
 		if back {
-			s.Covs = [][]int{{gA, gB}}
+			s.Covs = [][]int{axb}
 		}
 		if look {
-			s.Covs3 = [][]int{{gA, gB}}
+			s.Covs3 = [][]int{axb}
+			if n == 1 {
+				s.Covs3 = [][]int{axb, axb} // two lookahead glyphs
+			}
 		}
 		return s
 	}
@@ -317,12 +339,15 @@ func catalogue() []entry {
 	type shape struct {
 		format     string
 		back, look bool
+		wide       bool
 	}
 	shapes := []shape{
-		{"c1", false, false}, {"c2", false, false}, {"c3", false, false},
-		{"k1", false, false}, {"k1", true, false}, {"k1", false, true}, {"k1", true, true},
-		{"k2", true, false}, {"k2", false, true}, {"k2", true, true},
-		{"k3", false, false}, {"k3", true, false}, {"k3", false, true}, {"k3", true, true},
+		{"c1", false, false, false}, {"c2", false, false, false}, {"c3", false, false, false},
+		{"k1", false, false, false}, {"k1", true, false, false}, {"k1", false, true, false}, {"k1", true, true, false},
+		{"k2", true, false, false}, {"k2", false, true, false}, {"k2", true, true, false},
+		{"k3", false, false, false}, {"k3", true, false, false}, {"k3", false, true, false}, {"k3", true, true, false},
+		{"c2", false, false, true}, {"c3", false, false, true},
+		{"k2", true, true, true}, {"k3", false, false, true}, {"k3", false, true, true}, {"k3", true, true, true},
 	}
 	parentFlags := []flagVar{fv("none"), fv("marks"), fv("lig"), fv("mfs0")}
 	core := 0
@@ -346,7 +371,7 @@ func catalogue() []entry {
 						for pi, acts := range patterns {
 							e := entry{gd: gd,
 								ll: []Lookup{
-									{pf.flags, pf.mfs, []Sub{ctxSub(sh.format, n, sh.back, sh.look, acts)}},
+									{pf.flags, pf.mfs, []Sub{ctxSubW(sh.format, n, sh.back, sh.look, sh.wide, acts)}},
 									{cf.flags, cf.mfs, []Sub{ck.sub}},
 									{0, 0, []Sub{childKinds[0].sub}},
 								},
@@ -355,8 +380,11 @@ func catalogue() []entry {
 								labels: []string{"ctx:" + sh.format, "ctx-flags:" + pf.name, "child:" + ck.name,
 									"child-flags:" + cf.name, fmt.Sprintf("input-len:%d", n)},
 								ext: true}
+							if sh.wide {
+								e.labels = append(e.labels, "ctx-covers-ignorable")
+							}
 							// a core subset gets the longer sequences
-							if n == 2 && pi == 0 && cf.name == "none" && (pf.name == "none" || pf.name == "marks") {
+							if n == 2 && pi == 0 && !sh.wide && cf.name == "none" && (pf.name == "none" || pf.name == "marks") {
 								e.ext = false
 								core++
 							}
@@ -378,16 +406,23 @@ func catalogue() []entry {
 						continue
 					}
 					for _, ck := range []int{0, 1, 3, 4} {
-						ll := []Lookup{
-							{pf.flags, pf.mfs, []Sub{ctxSub("c1", 2, false, false, []Action{{0, 1}, {1, 3}})}},
-							{cf.flags, cf.mfs, []Sub{ctxSub(inner, 1, false, look, []Action{{0, 2}})}},
-							{0, 0, []Sub{childKinds[ck].sub}},
-							{0, 0, []Sub{childKinds[0].sub}},
+						for _, at := range []int{0, 1} {
+							for _, wide := range []bool{false, true} {
+								if wide && (inner == "c1" || inner == "k1") {
+									continue
+								}
+								ll := []Lookup{
+									{pf.flags, pf.mfs, []Sub{ctxSub("c1", 2, false, false, []Action{{at, 1}, {1 - at, 3}})}},
+									{cf.flags, cf.mfs, []Sub{ctxSubW(inner, 1, false, look, wide, []Action{{0, 2}})}},
+									{0, 0, []Sub{childKinds[ck].sub}},
+									{0, 0, []Sub{childKinds[0].sub}},
+								}
+								out = append(out, entry{gd: gd, ll: ll, order: []int{0}, alphabet: []int{gA, gM, gL},
+									labels: []string{"nested-ctx:" + inner, "ctx-flags:" + pf.name, "child-flags:" + cf.name,
+										"child:" + childKinds[ck].name},
+									ext: true})
+							}
 						}
-						out = append(out, entry{gd: gd, ll: ll, order: []int{0}, alphabet: []int{gA, gM, gL},
-							labels: []string{"nested-ctx:" + inner, "ctx-flags:" + pf.name, "child-flags:" + cf.name,
-								"child:" + childKinds[ck].name},
-							ext: true})
 					}
 				}
 			}
@@ -399,7 +434,7 @@ func catalogue() []entry {
 		for _, pf := range []flagVar{fv("none"), fv("marks")} {
 			for ci, child := range []Sub{subP1(), subPP1(), subMB()} {
 				ll := []Lookup{
-					{pf.flags, pf.mfs, []Sub{ctxSub(sh.format, 2, sh.back, sh.look, []Action{{1, 1}, {0, 1}})}},
+					{pf.flags, pf.mfs, []Sub{ctxSubW(sh.format, 2, sh.back, sh.look, sh.wide, []Action{{1, 1}, {0, 1}})}},
 					{0, 0, []Sub{child}},
 				}
 				out = append(out, entry{gd: gd, ll: ll, order: []int{0}, alphabet: []int{gA, gM, gB},
